@@ -92,10 +92,16 @@ Definition olist_eqb (a b : list (option N)) : bool :=
 Definition nlist_eqb (a b : list N) : bool :=
   (length a =? length b) && forallb (fun p => N.eqb (fst p) (snd p)) (combine a b).
 
+(* the unchecked decoders are only specified where the fallible ones succeed: [a] is the model
+   (whose unchecked table equals its fallible one), [b] the compiled codec *)
+Definition olist_agree_where_some (a b : list (option N)) : bool :=
+  (length a =? length b) &&
+  forallb (fun p => match fst p with Some _ => opt_eqb (fst p) (snd p) | None => true end) (combine a b).
+
 Definition codec_derived_eqb (a b : codec) : bool :=
   (c_bits a =? c_bits b) && nlist_eqb (c_items a) (c_items b) &&
-  olist_eqb (c_try_bits a) (c_try_bits b) && olist_eqb (c_un_bits a) (c_un_bits b) &&
-  olist_eqb (c_try_ascii a) (c_try_ascii b) && olist_eqb (c_un_ascii a) (c_un_ascii b) &&
+  olist_eqb (c_try_bits a) (c_try_bits b) && olist_agree_where_some (c_un_bits a) (c_un_bits b) &&
+  olist_eqb (c_try_ascii a) (c_try_ascii b) && olist_agree_where_some (c_un_ascii a) (c_un_ascii b) &&
   olist_eqb (c_char a) (c_char b).
 
 Definition derives_to (width_fn : option N -> N -> wres) (d : decl) (c : codec) : bool :=
